@@ -59,6 +59,11 @@ CHECKS = {
    note="The literal *match* part (accepts exactly the sequence, fails at the first differing byte) is decided per literal on the binary here and by the regex acceptance check under C07. Trusted: translate.py, cLex as the reading of the C standard's string-literal lexing, gcc.",
    technique="translator-generated graphs + Lean codec theorems + exhaustive byte sweep through the compiled C",
    design="5/C15"),
+ "C14": dict(cat="proof",
+   text="The operator chain of the grammar is regenerated from nmfu.grammar; the kernel decides that its levels are C's precedence levels in C's order with the non-chaining comparison/shift levels and unary-on-atoms as restrictions (grammar_levels_agree_with_C). Lean theorems about the C-arithmetic evaluator eval (explicit undefined behaviour): out-of-range index reads 0 for every index expression, assignment stores the value converted to the declared type, conditions are true iff non-zero, all use contexts evaluate the same function, flattening of n-ary nodes is value-preserving. Tie: random well-typed trees printed with minimal parentheses are compiled by the real nmfu and evaluated by the compiled C on random and boundary values, against eval on the generator's own tree (a reference machine not derived from nmfu's parse).",
+   note="Partial: the step from the level table to 'every accepted token string is grouped as C groups it' is the textbook argument, not formalised; C's own parse of the rendered text is exercised, not modelled. Trusted: gcc as the definition of C evaluation, translate.py.",
+   technique="translator-generated grammar table + Lean evaluator theorems + differential evaluation through the compiled C against an independent tree",
+   design="5/C14"),
 }
 
 def main():
